@@ -142,6 +142,8 @@ type Interp struct {
 	tail     []pendingOb
 	batchDepth int
 	curHarness bool
+	prop     string
+	skipped  int
 	regexLits []string
 	hashWrites map[int][]SliceV
 	hashSums  map[int]int
@@ -271,6 +273,13 @@ func (in *Interp) knownFor(kind, label string) []KnownSpec {
 // a new finding.  Afterwards g => !bad is assumed so that one defect does not cascade.
 func (in *Interp) obligation(g *Term, kind, label string, bad *Term) {
 	if bad.IsFalse() || g.IsFalse() {
+		return
+	}
+	// A run on behalf of one property skips the assertions labelled for other properties only:
+	// a failing foreign assertion would otherwise cut off (assume away) the very paths on which
+	// this property's own obligation fails.
+	if kind == "assert" && in.prop != "" && !labelFor(label, in.prop) {
+		in.skipped++
 		return
 	}
 	// Batching: obligations raised inside a verifBatch(true)..verifBatch(false) bracket, and bounds /
@@ -2132,4 +2141,19 @@ func (a *Act) selectOp(x *ssa.Select) Value {
 		res = append(res, in.zeroVal(ct.Elem()))
 	}
 	return res
+}
+
+// labelFor reports whether an assertion label ("C01,C08: text") concerns property id; labels
+// without a property prefix (harness sanity checks) concern every property.
+func labelFor(label, id string) bool {
+	i := strings.Index(label, ":")
+	if i < 0 || !strings.HasPrefix(label, "C") {
+		return true
+	}
+	for _, x := range strings.Split(label[:i], ",") {
+		if strings.TrimSpace(x) == id {
+			return true
+		}
+	}
+	return false
 }
